@@ -10,13 +10,13 @@ from contracts.lib import *  # noqa
 LEVEL = "other"
 MANIFEST_ENTRY = {
     "text": "The route wrapper installed by _authorization_decorator is proved for every Authorization header value (or none) and swissnum: the handler body runs only if a header is present, equals swissnum_auth_header(swissnum) and the X-Tahoe-Authorization secrets were extracted; otherwise 401/400 is raised and the handler (hence every state change) is never reached. _extract_secrets over <= 2 header values: the result has exactly the required secrets, every value non-empty, lease secrets 32 bytes; anything else is refused. UploadsInProgress: an upload in progress is reachable only with its own upload secret. Structural obligation (syntactic): every HTTPServer route is registered through _authorized_route with the documented secret set.",
-    "note": "Header-list shapes bounded (<= 2 values), hence level 'other'. base64 decoding is an uninterpreted function that may return any bytes (including empty) or fail; timing_safe_compare <=> equality; the Klein/werkzeug routing layer and TLS are not under contract. The route table in the contract is the documented GBS API.",
+    "note": "Header-list shapes bounded (<= 2 values), hence level 'other'. base64 decoding is an uninterpreted function that may return any bytes (including empty) or fail; timing_safe_compare <=> equality is a callee contract discharged on the real body under SHA-256 collision resistance (TimingSafeCompare); the Klein/werkzeug routing layer and TLS are not under contract. The route table in the contract is the documented GBS API.",
     "technique": "contract-based deductive verification (pyvc VCs + z3) + syntactic route-table scan",
 }
 MANIFEST_ENTRY["text"] += ' Bounded end-to-end stand-in (run-time contract, never counted as proved): contracts/grid_http.py replays seeded operation histories on twin real StorageServers, one called directly and one through the real HTTP client and HTTPServer resource in memory, comparing every result and the logical server state, interleaved with requests that must be refused (wrong swissnum, wrong or missing secrets) and must change nothing.'
 MANIFEST_ENTRY["technique"] += "; plus bounded end-to-end run-time scenario contracts on an in-process grid of the real components (stand-in, labelled bounded)"
 EXPLANATION = "Dominance of every handler by the swissnum and secret checks; exact secret sets."
-TRUSTED = ["timing_safe_compare(a,b) <=> a == b", "base64.b64decode as an uninterpreted partial function", "klein routing dispatches only registered routes"]
+TRUSTED = ["timing_safe_compare(a,b) <=> a == b is the callee contract used at call sites; it is discharged on the real body by TimingSafeCompare (contracts/tsc.py) under SHA-256 collision resistance (explicit cryptographic hypothesis, instantiated) and os.urandom(32) returning 32 bytes", "base64.b64decode as an uninterpreted partial function", "klein routing dispatches only registered routes"]
 ASSUMPTIONS = []
 NOT_DECIDED = "handler bodies beyond the gate (C22/C24/C31), TLS certificate pinning."
 F = "allmydata/storage/http_server.py"
@@ -391,4 +391,6 @@ def extra_checks(rep, tier):
 
 
 def contracts(tier):
-    return [AuthRoute(), ExtractSecrets(), ValidateUploadSecret()]
+    # swissnum and upload-secret comparisons go through hashutil.timing_safe_compare: its callee contract is discharged here
+    from contracts.tsc import TimingSafeCompare
+    return [AuthRoute(), ExtractSecrets(), ValidateUploadSecret(), TimingSafeCompare()]
